@@ -55,6 +55,16 @@ pub fn init() {
     ARENA_BASE.store(base, Ordering::SeqCst);
 }
 
+/// Fraction of the (never reused) guard arena handed out so far
+pub fn arena_used_fraction() -> f64 {
+    let b = ARENA_BASE.load(Ordering::Relaxed);
+    if b == 0 {
+        return 0.0;
+    }
+    let n = ARENA_NEXT.load(Ordering::Relaxed);
+    (n - b) as f64 / ARENA_SIZE as f64
+}
+
 fn in_arena(p: usize) -> bool {
     let b = ARENA_BASE.load(Ordering::Relaxed);
     b != 0 && p >= b && p < ARENA_END.load(Ordering::Relaxed)
